@@ -133,6 +133,30 @@ func freshEntry(args []string) string {
 				}
 			}
 			return b.String()
+		case "verdicts": // verdicts <ver> <level>: error classes of the decoder on valid and single-defect inputs
+			ver, _ := strconv.Atoi(args[1])
+			level, _ := strconv.Atoi(args[2])
+			var b strings.Builder
+			for _, seed := range seeds(ver) {
+				toks := strings.Split(seed, "/")
+				ins := []string{seed, seed + "/ZZ:N", seed + "/", "x" + seed}
+				for i, tk := range toks {
+					if ver == 3 && i == 0 {
+						continue
+					}
+					c := strings.IndexByte(tk, ':')
+					dup := append(append([]string{}, toks...), tk)                                      // the token twice
+					dup2 := append(append([]string{}, toks...), tk[:c]+":"+"X")                         // the name twice, another value
+					badv := append(append(append([]string{}, toks[:i]...), tk[:c]+":Q"), toks[i+1:]...) // invalid value
+					drop := append(append([]string{}, toks[:i]...), toks[i+1:]...)                      // token dropped
+					ins = append(ins, strings.Join(dup, "/"), strings.Join(dup2, "/"), strings.Join(badv, "/"), strings.Join(drop, "/"))
+				}
+				for _, in := range ins {
+					o, err, pan := lib.DecodeNew(ver, level, in)
+					fmt.Fprintf(&b, "%v %s %s;", o != nil, lib.Class(err), pan)
+				}
+			}
+			return b.String()
 		case "domain": // domain <ver> <level>: every observable over a slice of the level's domain that shows every value of every metric
 			ver, _ := strconv.Atoi(args[1])
 			level, _ := strconv.Atoi(args[2])
@@ -230,6 +254,28 @@ func domainDigest(ver, level int) string {
 
 // prologue runs a process history in front of a fresh entry (fresh @after=<name> ...).
 func prologue(name string) {
+	if name == "languages-first" {
+		// one base vector decoded, then reports (and names) in 100 distinct languages, before any
+		// temporal or environmental metric name was ever decoded in the process
+		safeRun(func() string {
+			o, _, _ := lib.DecodeNew(3, 0, seeds(3)[0])
+			if o == nil {
+				return ""
+			}
+			for i := 0; i < 100; i++ {
+				t, err := language.Parse(fmt.Sprintf("%s-x-p%03d", []string{"de", "fr", "zh", "ko", "und"}[i%5], i))
+				if err != nil {
+					continue
+				}
+				reportOf(o, t)
+				for _, e := range nameTable {
+					e.title(t)
+				}
+			}
+			return ""
+		})
+		return
+	}
 	safeRun(func() string {
 		for _, ver := range []int{3, 2} {
 			if (name == "v2-first" && ver == 3) || (name == "v3-first" && ver == 2) {
